@@ -302,7 +302,13 @@ func (d *decompressor) readMember() error {
 	// Read compressed data into the decompressor buffer until the
 	// underlying flate.Reader is positioned at the end of the gzip
 	// member in which the readMember call was made.
-	return d.buf.readLimited(need, d.cr)
+	err = d.buf.readLimited(need, d.cr)
+	if err == io.EOF {
+		// The member's header has been read, so the stream is
+		// truncated, not ended.
+		err = io.ErrUnexpectedEOF
+	}
+	return err
 }
 
 // Offset is a BGZF virtual offset.
